@@ -28,6 +28,7 @@ pub mod c_hostile;
 pub mod stk;
 pub mod c_stack;
 pub mod c_lease;
+pub mod c_sched;
 
 use std::path::PathBuf;
 
@@ -68,6 +69,7 @@ pub fn main_entry() -> i32 {
     "C10" => c_qos::run_c10(&args),
     "C11" => c_stack::run_c11(&args),
     "C12" => c_lease::run_c12(&args),
+    "C13" => c_sched::run_c13(&args),
     "C14" => c_codec::run_c14(&args),
     "C15" => c_plcdr::run_c15(&args),
     #[cfg(feature = "security")]
